@@ -82,3 +82,29 @@ def rule_attr_escape(chk, fb, rid_prefix):
     ok = drv in fb.mir and any(t.get("fn", "").endswith("BytesStart::<'a>::extend_attributes") for _, t in fb.calls_in(fb.mir[drv]))
     chk.touch(drv)
     chk.ob(rid, "driver", ok and n == 0, where=fb.loc(drv), detail="write_start_tag adds attributes with extend_attributes (escaping): %s; start tags built elsewhere: %d; callers of write_start_tag: %d" % (ok, n, len(fb.callers.get(drv, []))))
+
+
+def rule_legal_chars(chk, fb, rid):
+    """XML 1.0 cannot carry U+0000-U+0008, U+000B, U+000C, U+000E-U+001F (nor as character references); SpreadsheetML
+    carries them as _xHHHH_ (ST_Xstring). quick-xml's escapers only treat < > & ' ": a sink that hands model text to them
+    without a legalising step of the crate's own writes such characters raw and the part is not well-formed."""
+    r = chk.rule(
+        rid,
+        "only legal XML characters reach a part: every driver function that writes model text (text nodes, attribute values) passes it through a step of the crate that handles control characters (is_control / _xHHHH_ encoding) - quick-xml's escapers do not",
+        floor=3,
+    )
+    sinks = [d for d, b in sorted(fb.mir.items()) if d.startswith("writer::driver::") and b["kind"] == "Fn" and d.split("::")[-1] in ("write_start_tag", "write_text_node", "write_text_node_conversion")]
+    for d in sinks:
+        group = [d] + [x for x in fb.reachable_from([d]) if x in fb.mir and x != d]
+        legal = False
+        for g in group:
+            b = fb.mir[g]
+            for _, t in fb.calls_in(b):
+                if t.get("fn", "").split("::")[-1] in ("is_control", "is_ascii_control"):
+                    legal = True
+            for bl in b["blocks"]:
+                for st in bl["s"]:
+                    if st["k"] == "assign" and isinstance(st["rv"].get("op", {}).get("s"), str) and st["rv"]["op"]["s"].startswith("_x"):
+                        legal = True
+        chk.touch(d)
+        chk.ob(r, "%s" % d.split("::")[-1], legal, where=fb.loc(d), detail="text passes a character-legalising step: %s" % legal)
